@@ -126,6 +126,9 @@ type Wire struct {
 	srcMade    int
 	Returned   bool // set by the harness when the entry point returned; later ops are recorded as violations
 	LateOps    []string
+	// virtual-time watchdog: after MaxVirtual every I/O call fails, so a run that would never end does
+	MaxVirtual time.Duration
+	Overrun    bool
 	// counters
 	Filtered int
 	Drained  int
@@ -136,6 +139,17 @@ func NewWire(world World) *Wire {
 }
 
 func (w *Wire) since() time.Duration { return time.Since(w.epoch) }
+
+var errWatchdog = errors.New("harness watchdog: virtual time limit exceeded")
+
+// expired reports (with the lock held) whether the virtual-time limit has passed.
+func (w *Wire) expired() bool {
+	if w.MaxVirtual > 0 && time.Since(w.epoch) > w.MaxVirtual {
+		w.Overrun = true
+		return true
+	}
+	return false
+}
 
 // Hooks returns the constructor seam for packets.SetVerifHooks.
 func (w *Wire) Hooks() *packets.VerifHooks {
@@ -257,6 +271,9 @@ func (s *SimSink) WriteTo(buf []byte, dst netip.AddrPort) error {
 	w.mu.Lock()
 	defer w.mu.Unlock()
 	s.nWrite++
+	if w.expired() {
+		return errWatchdog
+	}
 	raw := append([]byte(nil), buf...)
 	if s.closed {
 		w.log(Event{Kind: "sink", Handle: s.idx, Op: "WriteTo", Data: raw, Note: "use-after-close"})
@@ -340,6 +357,9 @@ func (s *SimSource) SetReadDeadline(t time.Time) error {
 	w.mu.Lock()
 	defer w.mu.Unlock()
 	s.calls["SetReadDeadline"]++
+	if w.expired() {
+		return errWatchdog
+	}
 	if s.closed {
 		w.log(Event{Kind: "source", Handle: s.idx, Op: "SetReadDeadline", Note: "use-after-close"})
 		return os.ErrClosed
@@ -431,6 +451,10 @@ func (s *SimSource) Read(buf []byte) (int, error) {
 	first := true
 	for {
 		w.mu.Lock()
+		if w.expired() {
+			w.mu.Unlock()
+			return 0, errWatchdog
+		}
 		if first {
 			first = false
 			s.calls["Read"]++
